@@ -64,7 +64,7 @@ def run(ctx):
     with cf.ThreadPoolExecutor(3) as ex:
         f1 = ex.submit(vf.mc, ctx, "MC_RecentHistory", vf.cfg_text(constants=mcq if ctx.quick else mct, invariants=["HistBound", "BeltBits", "Shape"], properties=["StepShape"],
                                                                   raw="CONSTANT Roots <- R2\nCONSTANT Pkgs <- %s\nCONSTANT Outs <- Ou3" % ("Pk3" if ctx.quick else "Pk4")),
-                       workers=4 if ctx.quick else 8, timeout=1500, heap="8g")
+                       workers=2 if ctx.quick else 8, timeout=1500, heap="4g" if ctx.quick else "8g")
         fg = None if ctx.replay else ex.submit(vf.gen_cases, ctx, "RecentHistory_Gen", {"Tier": '"%s"' % ctx.tier, "Seed": str(ctx.seed % 1000), "InFile": '"%s"' % inp}, timeout=1500, heap="8g")
         binp = vf.build_driver(ctx, "rhistory", "./internal/recent_history", FILES)
         f1.result()
@@ -89,7 +89,7 @@ def run(ctx):
     ctx.cov["histories"] = sum(1 for l in lines if '"ev":"Reset"' in l)
     ctx.cov["prior_mutated"] = mut
     ctx.cov["rule"] = ("behaviours = TLC-enumerated two-block scripts (history length x belt x package order x outputs), a 20-block run from genesis and seeded "
-                       "20-block histories, each on the function-level path and on the singleton STF path; evaluations = block events; non-trivial = blocks with a guarantee or an output")
+                       "20-block histories, each on the function-level path, the singleton STF path and the test-vector STF variant; evaluations = block events; non-trivial = blocks with a guarantee or an output")
     ctx.cov["samples"] = [json.loads(x) for x in lines[:2]]
     if mut:
         vf.log("  info: %d block events modified the prior history in place (reported under C26, not a C25 violation)" % mut)
